@@ -204,9 +204,22 @@ func runC06(r *Run) {
 	r.Shared("C06.R8", func() {
 		r.Rule("C01.R7")
 		c01Leaf(r)
-		r.Rule("C14.R5")
-		c14ChainStore(r)
 	})
+	c06MoreShares(r)
+}
+
+// c06MoreShares: further mechanisms this property rests on, decided by the rule sets of the
+// properties that own them.
+func c06MoreShares(r *Run) {
+	// proofs and entries are only relayed for a tree the backend really has: the reply checks of the
+	// read handlers (tree-too-small, absent leaf / proof, garbled root, hash sizes) — rule set C08.R3
+	r.Shared("C06.R9", func() {
+		r.Rule("C08.R3")
+		c08Edges(r)
+	})
+	// "the stored entry decodes to the submitted certificate and chain" also when chains are kept
+	// outside the backend — rule sets of C14
+	r.Shared("C06.R10", func() { runC14(r) })
 }
 
 func c06Forwarding(r *Run) {
